@@ -79,8 +79,53 @@ def fixed_reads_rule(ck, P):
              "%s: a valid archive shorter than that cannot be opened (the formats only bound where the header and root directory lie, not the file length)" % bad[:2])
 
 
+def scan_skip_rule(ck, P):
+    """R-SCAN-SKIP: while scanning a tar archive or a tile directory an entry is skipped only because it FAILED to be something:
+    every `continue` that is not the end of a successful arm (i.e. is not preceded in its block by the insertion into the tile map
+    or by a metadata merge) is the else-branch of a `let PATTERN = .. else`, or is dominated — as its innermost condition — by a
+    failure fact: is_err() / is_none() true, is_ok() / is_some() false, a non-regular entry type, or an unknown name.  A skip under
+    the opposite condition drops valid tiles of a foreign (or own) container."""
+    from . import census
+    for suffix in ("tar::reader::TarTilesReader::open_path", "directory::reader::DirectoryTilesReader::open_path"):
+        bs = [b for b in P.bodies if b["q"].endswith(suffix)]
+        if not ck.anchor("R-SCAN-SKIP", suffix, bs, 1):
+            continue
+        b = bs[0]
+        blk = ir.fn_block(b)
+        facts_of = {id(n): f for n, f in census.nodes_with_facts(blk, lambda y: y.get("k") == "continue")}
+        n_skip, bad = 0, []
+        for n, parents, _ in ir.walk(blk):
+            if n.get("k") != "continue":
+                continue
+            # end of a successful arm?
+            inner = [p for p in parents if p.get("k") == "block"]
+            done = False
+            if inner:
+                sts = ir.stmts_of(inner[-1])
+                idx = next((i for i, st in enumerate(sts) if st is n or ir.contains(st, lambda y: y is n)), len(sts))
+                done = any(ir.contains(st, lambda y: y.get("k") == "mcall" and y.get("name") in ("insert", "merge", "include_coord", "include_coord3")) for st in sts[:idx])
+            if done:
+                continue
+            n_skip += 1
+            if any(p.get("k") == "let" and "els" in p and ir.contains(p["els"], lambda y: y is n) for p in parents):
+                continue
+            fs = [f for f in facts_of.get(id(n), ()) if f[0] in ("pred", "cmp", "letpat")]
+            last = fs[-1] if fs else None
+            okf = False
+            if last is not None:
+                if last[0] == "pred":
+                    okf = (last[2] in ("is_err", "is_none") and last[4] is True) or (last[2] in ("is_ok", "is_some") and last[4] is False)
+                elif last[0] == "cmp":
+                    okf = (last[2] == "!=" and "EntryType::Regular" in (str(last[3]) + str(last[1])))
+            if not okf:
+                bad.append("%s under `%s`" % (ir.loc(n), " ".join(map(str, last[1:])) if last else "no condition"))
+        ck.check(n_skip >= 3 and not bad, "R-SCAN-SKIP", b["q"], "entries are skipped only when they failed to parse / are not regular files (%d skip(s))" % n_skip,
+                 "an entry is skipped although nothing failed: %s — valid tiles or levels are dropped while the container is opened" % bad[:3], ir.loc(b))
+
+
 def rules(ck, P):
     fixed_reads_rule(ck, P)
+    scan_skip_rule(ck, P)
     # ---------------- R-SQL-NULL
     n_rows = 0
     for b in P.bodies:
@@ -228,7 +273,7 @@ def rules(ck, P):
         okd = False
         for blk in sts_all:
             sts = ir.stmts_of(blk)
-            di = next((i for i, s in enumerate(sts) if s.get("k") == "if" and ir.deep_has_lit(s["c"], ".") and ir.contains(s["then"], lambda y: y.get("k") == "mcall" and y.get("name") in ("remove", "drain", "pop_front"))), None)
+            di = next((i for i, s in enumerate(sts) if s.get("k") == "if" and ir.deep_has_lit(s["c"], ".") and ir.contains(s["then"], lambda y: y.get("k") == "mcall" and ((y.get("name") == "remove" and y.get("a") and ir.const_eval(y["a"][0], {}) == 0) or y.get("name") in ("drain", "pop_front")))), None)
             li = next((i for i, s in enumerate(sts) if s.get("k") == "if" and ir.cmp_norm(s["c"]) is not None and ir.cmp_norm(s["c"])[0].endswith("len()") and ir.cmp_norm(s["c"])[2] == "3"), None)
             if di is not None and li is not None and di < li:
                 okd = True
